@@ -22,6 +22,7 @@ CONSTANTS
   Decomps = {FALSE}
   Timeouts = {FALSE, TRUE}
   Shuts = {TRUE}
+  MCGz = {}
   Heads = {FALSE}
 CHECK_DEADLOCK FALSE
 PROPERTY ShutdownCloses
